@@ -167,7 +167,7 @@ class Section(Entity):
         except Exception:
             # do not leave a property without its values behind
             if name in properties:
-                properties.delete(name, False)
+                properties.delete(name, False, exact=True)
             raise
 
         return prop
